@@ -11,6 +11,9 @@ class OperatorData():
     
     fun_name -- name of the corresponding function.
     priority -- operators with higher number will be evaluated first.
+        The numbers follow the order of the rules in the grammar of
+        syntax/parser.py (a different number for each rule), so that the
+        printer inserts parentheses exactly where the parser needs them.
     assoc -- association to left (LEFT_ASSOC) or right (RIGHT_ASSOC).
     arity -- one of CONST, UNARY, or BINARY.
     ascii_op -- ascii text of the operator.
@@ -61,29 +64,29 @@ op_data_raw = [
     OperatorData("implies", 20, assoc=RIGHT, ascii_op="-->", unicode_op="⟶"),
     OperatorData("conj", 35, assoc=RIGHT, ascii_op="&", unicode_op="∧"),
     OperatorData("disj", 30, assoc=RIGHT, ascii_op="|", unicode_op="∨"),
-    OperatorData("neg", 95, arity=UNARY, ascii_op="~", unicode_op="¬"),
+    OperatorData("neg", 40, arity=UNARY, ascii_op="~", unicode_op="¬"),
     OperatorData("plus", 65, assoc=LEFT, ascii_op="+"),
     OperatorData("minus", 65, assoc=LEFT, ascii_op="-"),
-    OperatorData("uminus", 95, arity=UNARY, ascii_op="-"),
+    OperatorData("uminus", 85, arity=UNARY, ascii_op="-"),
     OperatorData("power", 81, assoc=LEFT, ascii_op="^"),
     OperatorData("times", 70, assoc=LEFT, ascii_op="*"),
     OperatorData("real_divide", 70, assoc=LEFT, ascii_op="/"),
     OperatorData("nat_divide", 70, assoc=LEFT, ascii_op="DIV"),
     OperatorData("nat_modulus", 70, assoc=LEFT, ascii_op="MOD"),
-    OperatorData("less_eq", 50, assoc=LEFT, ascii_op="<=", unicode_op="≤"),
-    OperatorData("less", 50, assoc=LEFT, ascii_op="<"),
-    OperatorData("greater_eq", 50, assoc=LEFT, ascii_op=">=", unicode_op="≥"),
-    OperatorData("greater", 50, assoc=LEFT, ascii_op=">"),
+    OperatorData("less_eq", 47, assoc=RIGHT, ascii_op="<=", unicode_op="≤"),
+    OperatorData("less", 46, assoc=RIGHT, ascii_op="<"),
+    OperatorData("greater_eq", 45, assoc=RIGHT, ascii_op=">=", unicode_op="≥"),
+    OperatorData("greater", 44, assoc=RIGHT, ascii_op=">"),
     OperatorData("zero", 0, arity=CONST, ascii_op="0"),
-    OperatorData("append", 65, assoc=RIGHT, ascii_op="@"),
-    OperatorData("cons", 65, assoc=RIGHT, ascii_op="#"),
-    OperatorData("member", 50, assoc=LEFT, ascii_op="Mem", unicode_op="∈"),
-    OperatorData("subset", 50, assoc=LEFT, ascii_op="Sub", unicode_op="⊆"),
-    OperatorData("inter", 70, assoc=LEFT, ascii_op="Int", unicode_op="∩"),
-    OperatorData("union", 65, assoc=LEFT, ascii_op="Un", unicode_op="∪"),
+    OperatorData("append", 63, assoc=RIGHT, ascii_op="@"),
+    OperatorData("cons", 62, assoc=RIGHT, ascii_op="#"),
+    OperatorData("member", 49, assoc=RIGHT, ascii_op="Mem", unicode_op="∈"),
+    OperatorData("subset", 48, assoc=RIGHT, ascii_op="Sub", unicode_op="⊆"),
+    OperatorData("inter", 68, assoc=LEFT, ascii_op="Int", unicode_op="∩"),
+    OperatorData("union", 61, assoc=LEFT, ascii_op="Un", unicode_op="∪"),
     OperatorData("empty_set", 0, arity=CONST, ascii_op="{}", unicode_op="∅"),
-    OperatorData("Union", 95, arity=UNARY, ascii_op="UN ", unicode_op="⋃"),
-    OperatorData("Inter", 95, arity=UNARY, ascii_op="INT ", unicode_op="⋂"),
+    OperatorData("Union", 90, arity=UNARY, ascii_op="UN ", unicode_op="⋃"),
+    OperatorData("Inter", 91, arity=UNARY, ascii_op="INT ", unicode_op="⋂"),
     OperatorData("comp_fun", 60, assoc=RIGHT, ascii_op="O", unicode_op="∘"),
 ]
 
